@@ -45,7 +45,7 @@ def target_specs(draw, d, kinds=("gauss", "gauss", "cliff", "mix")):
 def sampler_configs(draw, classes=CLASSES, max_d=4, target_kinds=("gauss", "gauss", "cliff", "mix"), bounds="maybe",
                     temperature="maybe", progress=(True, False)):
     cls = draw(st.sampled_from(list(classes)))
-    d = draw(st.integers(2 if cls == "pca" else 1, max_d))
+    d = draw(st.integers(1, max_d))
     kinds = tuple(k for k in target_kinds if not (cls == "hmc" and k in ("cliff", "flat", "cells", "plateau"))) or ("gauss",)
     tgt = draw(target_specs(d, kinds))
     d = tgt["d"]
